@@ -262,14 +262,79 @@ func fillMessage(c *Chooser, m protoreflect.Message, o *MsgGenOpts, depth int) {
 
 // msgEqualBytes compares two canonical encodings as messages (NaN equals NaN).
 func msgEqualBytes(md protoreflect.MessageDescriptor, a, b []byte) bool {
-	if a == nil || b == nil {
-		return a == nil && b == nil
+	if len(a) == 0 && len(b) == 0 {
+		return true
 	}
 	ma, mb := newMessageFor(md), newMessageFor(md)
 	if proto.Unmarshal(a, ma) != nil || proto.Unmarshal(b, mb) != nil {
 		return false
 	}
+	dropNullValues(ma.ProtoReflect())
+	dropNullValues(mb.ProtoReflect())
 	return proto.Equal(ma, mb)
 }
 
 func protoreflectBytes(b []byte) protoreflect.Value { return protoreflect.ValueOfBytes(b) }
+
+// dropNullValues clears google.protobuf.Value fields holding JSON null: protojson writes an unset Value field as null when
+// unpopulated fields are emitted and reads null back as a set Value, so "unset" and "null" are one thing on a JSON leg.
+func dropNullValues(m protoreflect.Message) {
+	m.Range(func(fd protoreflect.FieldDescriptor, v protoreflect.Value) bool {
+		if fd.Message() == nil || fd.IsMap() {
+			return true
+		}
+		if fd.IsList() {
+			if fd.Message().FullName() != "google.protobuf.Value" {
+				l := v.List()
+				for i := 0; i < l.Len(); i++ {
+					dropNullValues(l.Get(i).Message())
+				}
+			}
+			return true
+		}
+		if fd.Message().FullName() == "google.protobuf.Value" {
+			vm := v.Message()
+			if f := vm.Descriptor().Fields().ByName("null_value"); vm.Has(f) || vm.WhichOneof(vm.Descriptor().Oneofs().ByName("kind")) == nil {
+				m.Clear(fd)
+			}
+			return true
+		}
+		dropNullValues(v.Message())
+		return true
+	})
+}
+
+// msgEqualLoose additionally treats a set-but-empty message field like an unset one (REST bodies and query strings cannot tell them apart).
+func msgEqualLoose(md protoreflect.MessageDescriptor, a, b []byte) bool {
+	ma, mb := newMessageFor(md), newMessageFor(md)
+	if proto.Unmarshal(a, ma) != nil || proto.Unmarshal(b, mb) != nil {
+		return false
+	}
+	for _, m := range []protoreflect.Message{ma.ProtoReflect(), mb.ProtoReflect()} {
+		dropNullValues(m)
+		dropEmptyMessages(m)
+	}
+	return proto.Equal(ma, mb)
+}
+
+func dropEmptyMessages(m protoreflect.Message) {
+	m.Range(func(fd protoreflect.FieldDescriptor, v protoreflect.Value) bool {
+		if fd.Message() == nil || fd.IsMap() || fd.IsList() {
+			return true
+		}
+		sub := v.Message()
+		dropEmptyMessages(sub)
+		empty := true
+		sub.Range(func(protoreflect.FieldDescriptor, protoreflect.Value) bool { empty = false; return false })
+		if empty {
+			switch fd.Message().FullName() {
+			case "google.protobuf.Empty", "google.protobuf.Timestamp", "google.protobuf.Duration", "google.protobuf.FieldMask", "google.protobuf.StringValue", "google.protobuf.BytesValue",
+				"google.protobuf.BoolValue", "google.protobuf.Int32Value", "google.protobuf.UInt32Value", "google.protobuf.Int64Value", "google.protobuf.UInt64Value",
+				"google.protobuf.FloatValue", "google.protobuf.DoubleValue":
+				return true // a zero wrapper / timestamp is a value of its own in JSON, not "nothing"
+			}
+			m.Clear(fd)
+		}
+		return true
+	})
+}
